@@ -7,9 +7,12 @@ Import ListNotations.
    triangulation.BowyerWatson returned (index triples in map order, Position in the same unit);
    an input that reproduces the known finding (hull triangles dropped) is written as two cases:
    first need_spec = true, need_cover = false (everything except coverage must hold), then
-   need_spec = false, need_cover = true under the finding's FailKey; all other cases have both *)
+   need_spec = false, need_cover = true under the finding's FailKey; all other cases have both;
+   sup = what triangulation.SuperTriangle returned for the same input, in HALF units (the middle
+   of the bounding box may be a half integer) *)
 Inductive case :=
-| CTri (use_model need_spec need_cover : bool) (pts : list (Z * Z)) (tris : list (nat * nat * nat)) (pos : list (Z * Z * Z)).
+| CTri (use_model need_spec need_cover : bool) (pts : list (Z * Z)) (tris : list (nat * nat * nat))
+       (pos : list (Z * Z * Z)) (sup : list (Z * Z)).
 
 Definition qpts (pts : list (Z * Z)) : list pt := map (fun p => (inject_Z (fst p), inject_Z (snd p))) pts.
 Definition tri_inb (t : tri) (l : list tri) : bool := existsb (tri_eqb t) l.
@@ -20,18 +23,26 @@ Definition canon (t : tri) : tri :=
   if ((a <=? b) && (a <=? c))%nat then t
   else if ((b <=? a) && (b <=? c))%nat then (b, c, a) else (c, a, b).
 
-(* model vs implementation: the same set of wound triangles (the order of the index buffer is the
+Fixpoint sup_okb (m : list pt) (sup : list (Z * Z)) : bool :=
+  match m, sup with
+  | [], [] => true
+  | (x, y) :: ms, (a, b) :: ss =>
+      Qeq_bool (2 * x) (inject_Z a) && Qeq_bool (2 * y) (inject_Z b) && sup_okb ms ss
+  | _, _ => false
+  end.
+
+(* model vs implementation: the same super triangle, the same set of wound triangles (the order of the index buffer is the
    map order and the rotation of a triple is not an observable the statement talks about), and the
    run of the model meets the hypotheses of bw_delaunay_partial on this input *)
 Definition corr_ok (c : case) : bool :=
   match c with
-  | CTri m _ _ pts tris _ =>
+  | CTri m _ _ pts tris _ sup =>
       if m then
         match bw (qpts pts) with
         | Some ts => let ts := map canon ts in let tris := map canon tris in
                      (length ts =? length tris)%nat &&
                      forallb (fun t => tri_inb t tris) ts && forallb (fun t => tri_inb t ts) tris &&
-                     cavities_okb super_fixed (qpts pts)
+                     cavities_okb super_fixed (qpts pts) && sup_okb (super_fixed (qpts pts)) sup
         | None => false
         end
       else true
@@ -49,7 +60,7 @@ Fixpoint pos_okb (pts : list (Z * Z)) (pos : list (Z * Z * Z)) : bool :=
    the triangle areas add up to the area of the convex hull (exact in Q) *)
 Definition prop_ok (c : case) : bool :=
   match c with
-  | CTri _ spec cover pts tris pos =>
+  | CTri _ spec cover pts tris pos _ =>
       let q := qpts pts in
       (if spec then pos_okb pts pos && delaunayb q tris else true) &&
       (if cover then completeb q tris && coverb q tris else true)
